@@ -104,7 +104,12 @@ Line ==
           /\ (e.op = "recv" /\ e.r = "ok") => (got[e.th] = e.tag /\ e.hl = 0)
           /\ res' = [res EXCEPT ![e.th] = "none"]
           /\ UNCHANGED <<vars, got>>
-     [] e.k = "padd" -> AtNow /\ AddPipe(e.p, e.r = "ok") /\ UNCH_T
+     [] e.k = "padd" ->
+          \* the protocol is being told of the pipe; its verdict is a function of its state
+          AtNow /\ (\E ok \in BOOLEAN : AddPipe(e.p, ok)) /\ UNCH_T
+     [] e.k = "paddres" ->
+          \* ... and must be the one observed
+          (e.r = "ok") = (e.p \in pipes) /\ UNCHANGED vars /\ UNCH_T
      [] e.k = "prem" -> AtNow /\ RemovePipe(e.p) /\ UNCH_T
      [] e.k = "rv" -> AtNow /\ PeerReq(e.o, e.n, e.avail, e.hdr, e.tag) /\ UNCH_T
      [] e.k = "xs" ->
